@@ -33,7 +33,7 @@ def gen_cfg(sw: Stream, ra: Stream, methods=('pit', 'mps', 'sn'), weights=(4, 4,
                                              (3, 5, 7)]))
         ctor['a_prec'] = list(sw.choice([(2, 4, 8), (8,), (4, 8), (8, 2), (2, 3, 4, 5, 6, 7, 8), (7, 5)]))
         if sw.chance(0.4):
-            ctor['temperature'] = sw.choice([0.5, 2.0, 5.0])
+            ctor['temperature'] = sw.choice([0.5, 2.0, 5.0, 1, 2])
         if sw.chance(0.3):
             ctor['gumbel_softmax'] = True
         if sw.chance(0.3):
@@ -174,8 +174,9 @@ def gen_observer(cfg, rs, enabled):
     if k == 'export_nobn' and cfg['method'] != 'pit':
         k = 'export'
     op = {'op': k}
-    if rs.chance(0.25):
-        op['no_grad'] = True          # the observer is called inside torch.no_grad() (only honoured for injected calls)
+    if rs.chance(0.3):
+        # the observer is called inside torch.no_grad() / torch.inference_mode() (only honoured for injected calls)
+        op['no_grad'] = rs.choice([True, 'inference'])
     if k == 'get_cost':
         op['i'] = rs.randint(0, 1)
     if k == 'switch_spec_and_back':
